@@ -273,6 +273,13 @@ def run_configs(P):
             zz, lo = ws2doptvplc_tyx(cb, 0.9, -3000.0)
             hashes.setdefault(hashlib.sha256(zz.tobytes() + lo.tobytes()).hexdigest()[:16], []).append(n)
     numba.set_num_threads(maxt)
+    # each pixel's result depends on its own series only: the cube with its columns in reverse order gives the reversed result
+    z0, l0 = ws2doptvplc_tyx(cb, 0.9, -3000.0)
+    z1, l1 = ws2doptvplc_tyx(np.ascontiguousarray(cb[:, :, ::-1]), 0.9, -3000.0)
+    res["computations"] += 2
+    if not (np.array_equal(z0, z1[:, :, ::-1]) and np.array_equal(l0, l1[:, ::-1], equal_nan=True)):
+        bad = int((z0 != z1[:, :, ::-1]).any(axis=0).sum())
+        fail("ws2doptvplc_tyx", "reversing the order of the columns does not reverse the result: %d of %d pixels depend on their neighbours" % (bad, nr * nc))
     res["threads"] = dict(counts=counts, max_threads=maxt, distinct_results=len(hashes))
     if len(hashes) != 1:
         fail("ws2doptvplc_tyx", "results differ between thread counts / repeated runs: %s" % hashes)
